@@ -19,6 +19,9 @@ SPEC = "CoroSched"
 INVARIANTS = ["TypeOK", "CoroMode", "RunToSuspension", "QueueFIFO", "ObservedOrder", "ResumeOncePerReadying",
               "NoReentrancy", "RoundRobin", "FullDrain", "AllDoneAtEnd"]
 TLC_WORKERS = 4
+ALL_CONFIGS = ("resolve", "fanout", "spawn", "bound", "park", "mutex", "queue", "mixed", "nested")
+# an event <<c, i, kind, <<x, y, ...>>, mode>> whose deque snapshot holds at least two coroutines
+RICH_RE = re.compile(r'<<\d+, \d+, "[bsef]", <<\d+, \d+')
 
 # cfg file -> actions that must have fired (vacuity guard; "entered from normal code" = Nat*,
 # "from inside another coroutine" = Spawn*)
@@ -33,6 +36,10 @@ CONFIGS = {
     "mutex": ["NatSpawn", "NatResolve", "Flush", "IqExit", "Pause", "Lock", "ReleaseDiscard", "ReleaseAwait",
               "AwaitFuture", "ResolveDiscard", "Return"],
     "queue": ["NatSpawn", "NatQPush", "Flush", "IqExit", "Pause", "QPop", "QPushDiscard", "QPushAwait", "Return"],
+    "nested": ["NatSpawn", "NatResolve", "Flush", "IqExit", "Pause", "ResolveDiscard", "AwaitFuture",
+               "SpawnDetachDiscard", "StartNested", "StartReturn", "Return"],
+    "fanout": ["NatSpawn", "NatResolve", "IqNext", "Flush", "IqExit", "Pause", "ResolveDiscard", "ResolveAwait",
+               "AwaitFuture", "Return"],
     "mixed": ["NatSpawn", "NatResolve", "IqNext", "Flush", "IqExit", "Pause", "ResolveDiscard", "ResolveAwait",
               "AwaitFuture", "SpawnDetachDiscard", "SpawnDetachAwait", "SpawnCoAwait", "Return"],
 }
@@ -88,8 +95,7 @@ def leaves_and_preds(g):
     return preds, leaves
 
 
-def replay_config(ctx, rp, name, tag=None, constants=None, max_programs=None):
-    tag = tag or name
+def cfg_for(ctx, name, tag, constants):
     sd = os.path.join(vlib.VERIF, "spec", SPEC)
     os.makedirs(vlib.BUILD, exist_ok=True)
     cfg_path = os.path.join(sd, "CoroSched_%s.cfg" % name)
@@ -97,6 +103,89 @@ def replay_config(ctx, rp, name, tag=None, constants=None, max_programs=None):
         base = open(cfg_path).read()
         cfg_path = os.path.join(vlib.BUILD, "%s_%s.cfg" % (ctx.prop, tag))
         vlib.write_cfg(cfg_path, base, constants)
+    return cfg_path
+
+
+def shape_stats(ctx, states):
+    """what the replayed programs exercise (vacuity guard for the history properties)"""
+    st = ctx.extra.setdefault("program_shapes", {
+        "programs": 0, "with_discarded_readying": 0, "pause_with_others_queued": 0, "deque_len_ge2_seen": 0,
+        "resolve_releasing_ge2": 0, "spawn_inside_coroutine": 0, "max_events": 0})
+    for s in states:
+        st["programs"] += 1
+        if s["disc"]:
+            st["with_discarded_readying"] += 1
+        ev = s["ev"]
+        scr = s["script"]
+        if any(e[0] != 0 and e[2] == "s" and e[3] and scr[str(e[0])][e[1] - 1][0] == "pa" for e in ev):
+            st["pause_with_others_queued"] += 1
+        if any(len(e[3]) >= 2 for e in ev):
+            st["deque_len_ge2_seen"] += 1
+        if any(c != "0" and any(x[0] in ("sd", "sa", "sc", "st", "bd", "ba") for x in steps) for c, steps in scr.items()):
+            st["spawn_inside_coroutine"] += 1
+        # a single action that enqueued / handed over two or more coroutines
+        for a, b in zip(ev, ev[1:]):
+            if a[0] == b[0] and len(b[3]) - len(a[3]) >= 2:
+                st["resolve_releasing_ge2"] += 1
+                break
+        st["max_events"] = max(st["max_events"], len(ev))
+
+
+def run_programs(ctx, rp, tag, states):
+    """states: terminal states of the specification (complete programs with their history)"""
+    script = os.path.join(vlib.BUILD, "%s_%s.script" % (ctx.prop, tag))
+    nsteps = 0
+    with open(script, "w") as f:
+        for k, s in enumerate(states):
+            if s.get("nph") != "done":
+                raise MachineryError("CoroSched/%s: terminal state that is not the end of a program: %s" % (tag, vlib.canon(s)[:600]))
+            f.write("BEGIN %s_%d %s\n" % (tag, k, vlib.canon({"swap": k % 4 == 3})))
+            f.write("Run\t%s\n" % vlib.canon(terminal_projection(s)))
+            f.write("END\n")
+            nsteps += len(s["ev"])
+    shape_stats(ctx, states)
+    rc, out = vlib.run_cmd([rp], stdin_path=script, timeout=3000)
+    pr = parse_replay_output(out)
+
+    def program_of(txt, sid):
+        m = re.search(r'"script":(\{.*?\})\}', txt)
+        return m.group(1) if m else sid
+
+    if pr["summary"] is None:
+        done = pr["ok"] + len(pr["diverged"]) + len(pr["errors"])
+        sid = "%s_%d" % (tag, done)
+        txt = "#replayer corosched_replay\n" + scenario_text(script, sid)
+        tail = out[-1500:]
+        tail = "\n".join(l for l in tail.splitlines() if not l.startswith("OK "))
+        ctx.violation("crash:%s:%s" % (SPEC, program_of(txt, sid)),
+                      "replayer terminated abnormally (rc=%s) while running program %s of %s/%s: %s" % (
+                          rc, program_of(txt, sid), SPEC, tag, tail),
+                      txt + "#output tail:\n#" + tail.replace("\n", "\n#") + "\n")
+        ctx.traces += pr["ok"]
+        return
+    if pr["errors"]:
+        raise MachineryError("replayer cannot execute scenarios: " + pr["errors"][0][:500])
+    ctx.traces += pr["ok"]
+    ctx.steps += nsteps
+    for line in pr["diverged"][:3]:
+        sid = line.split()[1]
+        txt = "#replayer corosched_replay\n" + scenario_text(script, sid)
+        ctx.violation("diverge:%s:%s" % (SPEC, program_of(txt, sid)),
+                      "implementation diverges from %s (%s): %s" % (SPEC, tag, first_difference(line)),
+                      txt + "#" + line[:4000] + "\n")
+    if states:
+        ctx.sample({"model": "%s/%s" % (SPEC, tag), "script": scenario_text(script, "%s_0" % tag)[:1500]})
+    try:
+        os.remove(script)
+    except OSError:
+        pass
+
+
+def replay_config(ctx, rp, name, tag=None, constants=None, max_programs=None):
+    """TLC exhaustive on the configuration with the state graph dumped; every terminal state (quick: a
+    sample) is run on the implementation"""
+    tag = tag or name
+    cfg_path = cfg_for(ctx, name, tag, constants)
     dot = os.path.join(vlib.BUILD, "%s_%s.dot" % (ctx.prop, tag))
     try:
         res = ctx.tlc(SPEC, SPEC, cfg_path, tag, dump_dot=dot, workers=TLC_WORKERS, timeout=3000)
@@ -115,7 +204,13 @@ def replay_config(ctx, rp, name, tag=None, constants=None, max_programs=None):
     ctx.models[-1]["programs"] = len(leaves)
     leaves.sort()
     if max_programs is not None and len(leaves) > max_programs:
-        leaves = ctx.rng.sample(leaves, max_programs)
+        # quick tier: prefer the programs in which order matters most (an event that sees two or more
+        # coroutines in the deque), fill up with a random sample of the others
+        rich = [n for n in leaves if RICH_RE.search(g.state_text[n])]
+        rich_set = set(rich)
+        rest = [n for n in leaves if n not in rich_set]
+        take = min(len(rich), (2 * max_programs) // 3)
+        leaves = ctx.rng.sample(rich, take) + ctx.rng.sample(rest, min(len(rest), max_programs - take))
         ctx.exhaustive = False
     # edges lying on some path to a replayed leaf (the leaf's history is the history of every such path)
     anc = set(leaves)
@@ -128,85 +223,123 @@ def replay_config(ctx, rp, name, tag=None, constants=None, max_programs=None):
             if p not in anc:
                 anc.add(p)
                 work.append(p)
-    nsteps = 0
     ctx.models[-1]["edges_replayed"] = on_path
     ctx.models[-1]["paths"] = len(leaves)
-    script = os.path.join(vlib.BUILD, "%s_%s.script" % (ctx.prop, tag))
-    with open(script, "w") as f:
-        for k, n in enumerate(leaves):
-            s = g.state(n)
-            if s.get("nph") != "done":
-                raise MachineryError("CoroSched/%s: terminal state that is not the end of a program: %s" % (tag, vlib.canon(s)[:600]))
-            f.write("BEGIN %s_%d %s\n" % (tag, k, vlib.canon({"swap": k % 4 == 3})))
-            f.write("Run\t%s\n" % vlib.canon(terminal_projection(s)))
-            f.write("END\n")
-            nsteps += len(s["ev"])
+    states = [g.state(n) for n in leaves]
     del g
-    rc, out = vlib.run_cmd([rp], stdin_path=script, timeout=1800)
-    pr = parse_replay_output(out)
-    if pr["summary"] is None:
-        done = pr["ok"] + len(pr["diverged"]) + len(pr["errors"])
-        sid = "%s_%d" % (tag, done)
-        txt = "#replayer corosched_replay\n" + scenario_text(script, sid)
-        tail = out[-1500:]
-        m = re.search(r'"script":(\{.*?\})\}', txt)
-        ctx.violation("crash:%s:%s" % (SPEC, m.group(1) if m else sid),
-                      "replayer terminated abnormally (rc=%s) while running program %s of %s/%s: %s" % (
-                          rc, m.group(1) if m else sid, SPEC, tag, tail),
-                      txt + "#output tail:\n#" + tail.replace("\n", "\n#") + "\n")
-        ctx.traces += pr["ok"]
-        return
-    if pr["errors"]:
-        raise MachineryError("replayer cannot execute scenarios: " + pr["errors"][0][:500])
-    ctx.traces += pr["ok"]
-    ctx.steps += nsteps
-    for line in pr["diverged"][:3]:
-        sid = line.split()[1]
-        txt = "#replayer corosched_replay\n" + scenario_text(script, sid)
-        m = re.search(r'"script":(\{.*?\})\}', txt)
-        ctx.violation("diverge:%s:%s" % (SPEC, m.group(1) if m else sid),
-                      "implementation diverges from %s (%s): %s" % (SPEC, tag, first_difference(line)),
-                      txt + "#" + line[:4000] + "\n")
-    if leaves:
-        ctx.sample({"model": "%s/%s" % (SPEC, tag), "script": scenario_text(script, "%s_0" % tag)[:1500]})
-    try:
-        os.remove(script)
-    except OSError:
-        pass
+    run_programs(ctx, rp, tag, states)
 
 
 def tlc_only(ctx, name, tag, constants=None, **kw):
-    sd = os.path.join(vlib.VERIF, "spec", SPEC)
-    cfg_path = os.path.join(sd, "CoroSched_%s.cfg" % name)
-    if constants:
-        base = open(cfg_path).read()
-        cfg_path = os.path.join(vlib.BUILD, "%s_%s.cfg" % (ctx.prop, tag))
-        vlib.write_cfg(cfg_path, base, constants)
-    res = ctx.tlc(SPEC, SPEC, cfg_path, tag, workers=TLC_WORKERS, timeout=3000, **kw)
+    """bigger bound, specification only (no graph dump, no replay)"""
+    res = ctx.tlc(SPEC, SPEC, cfg_for(ctx, name, tag, constants), tag, workers=TLC_WORKERS, timeout=3000, **kw)
     if res.violation:
         ctx.tlc_violation(res, "%s:%s" % (SPEC, tag))
     return res
 
 
+def simulate_replay(ctx, rp, name, tag, constants, num, depth=400):
+    """random programs beyond the exhaustive bound: TLC -simulate checks the invariants along random
+    maximal paths and writes each path to a file; the final state of every completed path is a program
+    with its history and is run on the implementation"""
+    import glob
+    import shutil
+    simdir = os.path.join(vlib.BUILD, "%s_%s_sim" % (ctx.prop, tag))
+    shutil.rmtree(simdir, ignore_errors=True)
+    os.makedirs(simdir)
+    try:
+        per_worker = max(1, num // TLC_WORKERS)
+        res = ctx.tlc(SPEC, SPEC, cfg_for(ctx, name, tag, constants), tag, workers=TLC_WORKERS, timeout=3000,
+                      simulate="file=%s/t,num=%d" % (simdir, per_worker), depth=depth, seed=ctx.seed, coverage=False)
+        if res.violation:
+            ctx.tlc_violation(res, "%s:%s" % (SPEC, tag))
+            return
+        states = []
+        seen = set()
+        for fn in sorted(glob.glob(simdir + "/t_*")):
+            txt = open(fn).read()
+            i = txt.rfind("\nSTATE_")
+            if i < 0:
+                continue
+            body = txt[txt.index("==", i) + 2:]
+            body = body[:body.rfind("====")].strip()
+            s = vlib.parse_state_text(body)
+            key = vlib.canon(s["script"])
+            if s.get("nph") == "done" and key not in seen:
+                seen.add(key)
+                states.append(s)
+    finally:
+        shutil.rmtree(simdir, ignore_errors=True)
+    if not states:
+        raise MachineryError("CoroSched/%s: simulation produced no complete program" % tag)
+    ctx.models[-1]["programs"] = len(states)
+    ctx.models[-1]["simulated"] = True
+    run_programs(ctx, rp, tag, states)
+
+
+def nested_strict_probe(ctx):
+    """Informational, never a verdict: with the future-returning start() a child runs NESTED inside its
+    caller; when it pauses, coroutines the caller made ready (discarded suspend point) run before the
+    caller itself has suspended.  The check reads "the running coroutine" of the property as the
+    innermost activation for such programs (invariant RunToSuspensionInner, configuration `nested`,
+    replayed like every other configuration); this probe records what the letter-strict reading
+    (RunToSuspension with respect to the waker itself) gives on the same programs."""
+    sd = os.path.join(vlib.VERIF, "spec", SPEC)
+    res = vlib.run_tlc(sd, SPEC, os.path.join(sd, "CoroSched_nested_strict.cfg"), "%s_nested_strict" % ctx.prop,
+                       workers=1, coverage=False, timeout=900)
+    if res.error and not res.violation:
+        raise MachineryError("TLC failed on CoroSched_nested_strict.cfg:\n%s" % res.error)
+    note = {"strict_reading_holds": not res.violation}
+    if res.violation and res.trace:
+        last = res.trace[-1][1]
+        note["violated"] = res.violation
+        note["shortest_program"] = last.get("script")
+        note["history"] = last.get("ev")
+    ctx.extra["nested_start_strict_reading"] = note
+    log("  note: nested start(), letter-strict RunToSuspension: %s" % (
+        "holds" if not res.violation else "does not hold, e.g. program %s" % vlib.canon(note.get("shortest_program"))))
+
+
 def run(ctx):
     rp = vlib.compile_harness(vlib.VERIF + "/harness/corosched_replay.cpp", "corosched_replay", sanitize=not ctx.quick)
+    S3 = {"MaxSteps": 3}
     if ctx.quick:
-        cap = 4000
-        replay_config(ctx, rp, "resolve", max_programs=cap)
-        replay_config(ctx, rp, "spawn", max_programs=cap)
-        replay_config(ctx, rp, "bound", max_programs=cap)
-        replay_config(ctx, rp, "park", max_programs=cap)
-        replay_config(ctx, rp, "mutex", max_programs=cap)
-        replay_config(ctx, rp, "queue", max_programs=cap)
+        cap = 3000
+        for name in ALL_CONFIGS:
+            replay_config(ctx, rp, name, max_programs=cap)
     else:
-        replay_config(ctx, rp, "resolve")
-        replay_config(ctx, rp, "spawn")
-        replay_config(ctx, rp, "bound")
-        replay_config(ctx, rp, "park")
-        replay_config(ctx, rp, "mutex")
-        replay_config(ctx, rp, "queue")
-    ctx.assume("one thread; the alphabet has no future-returning start()/join() (they resume the child nested inside "
-               "the caller, like a function call) and no user call of install_queue_and_call inside a coroutine")
+        # exhaustive, every program replayed (address/UB sanitizers on)
+        for name in ALL_CONFIGS:
+            replay_config(ctx, rp, name)
+        replay_config(ctx, rp, "resolve", "resolve_s3", dict(S3, Prune="TRUE"))
+        replay_config(ctx, rp, "resolve", "resolve_k2", dict(K=2, Prune="TRUE"))
+        replay_config(ctx, rp, "resolve", "resolve_n2k2s3", dict(S3, N=2, K=2, Prune="TRUE"))
+        replay_config(ctx, rp, "fanout", "fanout_n5", dict(N=5, Roots=5, NatSteps=5, MaxSteps=1))
+        replay_config(ctx, rp, "queue", "queue_nat4", dict(NatSteps=4))
+        replay_config(ctx, rp, "spawn", "spawn_s3", S3)
+        replay_config(ctx, rp, "bound", "bound_s3", S3)
+        # bigger bounds on the specification only
+        tlc_only(ctx, "resolve", "resolve_s3_all", S3)
+        tlc_only(ctx, "resolve", "resolve_k2s3", dict(S3, K=2, Prune="TRUE"))
+        tlc_only(ctx, "park", "park_s3", S3)
+        tlc_only(ctx, "mutex", "mutex_s3", S3)
+        tlc_only(ctx, "mixed", "mixed_s3", S3)
+        # random programs far beyond the exhaustive bound, invariants checked and every program replayed
+        simulate_replay(ctx, rp, "big", "sim_big", None, num=4000)
+        simulate_replay(ctx, rp, "mutex", "sim_mutex", dict(N=4, MaxSteps=5, K=2, NatSteps=6), num=2000)
+    nested_strict_probe(ctx)
+    sh = ctx.extra.get("program_shapes", {})
+    for k in ("with_discarded_readying", "pause_with_others_queued", "deque_len_ge2_seen", "resolve_releasing_ge2",
+              "spawn_inside_coroutine"):
+        if not sh.get(k):
+            raise MachineryError("vacuous replay: no replayed program exercises '%s'" % k)
+    ctx.assume("one thread; no join()/blocking wait and no user call of install_queue_and_call inside a coroutine")
+    ctx.assume("future-returning start() (a child resumed nested inside its caller, configuration `nested`): 'the running "
+               "coroutine' is read as the innermost activation; under the letter-strict reading (nothing the caller made "
+               "ready runs before the CALLER suspends) the library does not hold, see coverage.nested_start_strict_reading")
     ctx.assume("generated programs are free of wait cycles (choice guards in the specification); after its own steps "
                "the native driver resolves/unparks/pushes whatever is still blocked so that every coroutine finishes")
-    ctx.assume("mutex and queue steps use one mutex / one queue<void>; mutex programs have no co_await of a child")
+    ctx.assume("mutex and queue steps use one mutex / one queue<void>; mutex programs have no co_await of a child; "
+               "signal/publisher emitters are not in the alphabet (they hand over through the same suspend_point paths)")
+    ctx.assume("the order among coroutines released by ONE promise resolution (latest subscriber first) and the target "
+               "of the symmetric transfer (the LAST handle) are mirrored from the code, not required by the property")
